@@ -11,6 +11,22 @@ func Title(s string) string {
 	return cases.Title(language.Und, cases.NoLower).String(s)
 }
 
+// bodyDefines returns true if the explicitly defined HTTP body has an attribute
+// with the given name. Unlike AttributeExpr.Find it does not consult the types
+// the body merely references: Body(func() { Attribute("a") }) references the
+// method payload to inherit the properties of "a" but only defines "a".
+func bodyDefines(body *AttributeExpr, name string) bool {
+	if obj := AsObject(body.Type); obj != nil && obj.Attribute(name) != nil {
+		return true
+	}
+	for _, b := range body.Bases {
+		if obj := AsObject(b); obj != nil && obj.Attribute(name) != nil {
+			return true
+		}
+	}
+	return false
+}
+
 // findKey finds the given key in the endpoint expression and returns the
 // transport element name and the position (header, query, or body for HTTP or
 // message, metadata for gRPC endpoint).
@@ -25,7 +41,7 @@ func findKey(exp eval.Expression, keyAtt string) (string, string) {
 			return "", "header"
 		}
 		if _, ok := e.Body.Meta["http:body"]; ok {
-			if e.Body.Find(keyAtt) != nil {
+			if bodyDefines(e.Body, keyAtt) {
 				return keyAtt, "body"
 			}
 			if m, ok := e.Body.Meta["origin:attribute"]; ok && m[0] == keyAtt {
